@@ -6,167 +6,285 @@ import copy
 
 from ..core import (AnalysisError, FuncInfo, Project, attr_chain, const_int, const_str, enclosing, expand, guards_of,
                     local_defs, term, unparse)
-from ..intdec import Specializer
+from ..absint import BoundFunc, Lin, MiniInterp, PyRaise, Sym, Unknown
+from ..evalsite import Run, _hook, deep_strs, run_site
 
 QPP = "codelimit.common.report.Report:Report.quality_profile_percentage"
 CATS = ("easy", "verbose", "hard_to_maintain", "unmaintainable")
 
 
-def linear(e, names) -> dict | None:
-    """linear normal form {name: coeff, '1': const} of an expression over `names`, or None"""
-    c = const_int(e)
-    if c is not None:
-        return {"1": c}
-    if isinstance(e, ast.Name) and e.id in names:
-        return {e.id: 1}
-    if isinstance(e, ast.BinOp) and isinstance(e.op, (ast.Add, ast.Sub)):
-        a, b = linear(e.left, names), linear(e.right, names)
-        if a is None or b is None:
-            return None
-        out = dict(a)
-        for k, v in b.items():
-            out[k] = out.get(k, 0) + (v if isinstance(e.op, ast.Add) else -v)
-        return {k: v for k, v in out.items() if v != 0}
-    if isinstance(e, ast.UnaryOp) and isinstance(e.op, ast.USub):
-        a = linear(e.operand, names)
-        return None if a is None else {k: -v for k, v in a.items()}
-    return None
+POS_HINT = "the profile total is positive"
+
+
+def qpp_eval(prj, profile=None):
+    """quality_profile_percentage evaluated on a symbolic profile [p0..p3] with a positive total (comparisons of the
+    total with 0/1 answered accordingly; ceil/round/int/floor/min/max kept as uninterpreted terms), or on a concrete
+    profile. -> (tuple of 4 values, FuncInfo)"""
+    fi = prj.func(QPP)
+    ps = [Sym(f"p{i}") for i in range(4)] if profile is None else list(profile)
+    run = Run()
+    base = _hook(run)
+
+    def positive(v):
+        l = Lin.of(v)
+        return bool(l.terms) and all(c > 0 for c in l.terms.values()) and l.const >= 0 and all(k in ("p0", "p1", "p2", "p3") for k in l.terms)
+
+    def hook(it, kind, f, args, kwargs, node, cur):
+        if kind == "call" and isinstance(f, BoundFunc) and f.fi.name == "quality_profile":
+            return list(ps)
+        if kind == "compare" and profile is None:
+            op, (x, y) = f, args
+            flip = {ast.Lt: ast.Gt, ast.Gt: ast.Lt, ast.LtE: ast.GtE, ast.GtE: ast.LtE, ast.Eq: ast.Eq, ast.NotEq: ast.NotEq}
+            t = type(op)
+            if isinstance(y, (Sym, Lin)) and not isinstance(x, (Sym, Lin)) and t in flip:
+                x, y, t = y, x, flip[t]
+            if isinstance(y, (int, float)) and positive(x):
+                if y <= 0:
+                    return {ast.Gt: True, ast.GtE: True, ast.NotEq: True, ast.Lt: False, ast.LtE: False, ast.Eq: False}.get(t, NotImplemented)
+                if y == 1:
+                    return {ast.GtE: True, ast.Lt: False}.get(t, NotImplemented)
+            return NotImplemented
+        if kind == "truth" and profile is None and positive(f):
+            return True
+        if kind == "call" and profile is None:
+            nm = None
+            if isinstance(f, tuple) and f and f[0] == "external":
+                nm = f[1].replace(":", ".").split(".")[-1]
+            elif isinstance(f, tuple) and f and f[0] == "builtin":
+                nm = f[1]
+            if nm in ("ceil", "floor", "trunc", "round", "int", "min", "max") and any(isinstance(x, (Sym, Lin)) for x in args):
+                return it.opaque(nm, *args)
+        return base(it, kind, f, args, kwargs, node, cur)
+    it = MiniInterp(prj, hook)
+    me = Sym("report", _cls=fi.cls)
+    try:
+        r = it.call(fi, [], {}, self_obj=me)
+    except Unknown as e:
+        raise AnalysisError(f"{fi.disp}: cannot evaluate symbolically ({e})")
+    if isinstance(r, Sym) and getattr(r, "tuple_order", None):
+        r = tuple(r.fields[k] for k in r.tuple_order)
+    if not (isinstance(r, (tuple, list)) and len(r) == 4):
+        raise AnalysisError(f"{fi.disp}: does not return four values ({r!r})")
+    qpp_eval.terms = dict(it.terms)
+    return tuple(r), fi
+
+
+def _op(v):
+    return v.fields.get("op") if isinstance(v, Sym) else None
+
+
+def _share_of(v):
+    """v = k * Div(m * p_i, total) + c  (any association) -> (i, k*m, c) else None"""
+    try:
+        l = Lin.of(v)
+    except Unknown:
+        return None
+    if len(l.terms) != 1:
+        return None
+    (name, k), = l.terms.items()
+    return name, k, l.const
+
+
+def _find_term(v, name):
+    """the opaque Sym with this name inside v"""
+    seen = []
+
+    def rec(x):
+        if isinstance(x, Sym):
+            if x.name == name:
+                seen.append(x)
+            for y in x.fields.get("args", []) or []:
+                rec(y)
+        elif isinstance(x, Lin):
+            pass
+    rec(v)
+    return seen[0] if seen else None
+
+
+class Terms:
+    """registry of opaque terms by name (Lin only keeps names)"""
+
+    def __init__(self):
+        self.by_name = {}
+
+    def scan(self, v):
+        if isinstance(v, Sym):
+            self.by_name[v.name] = v
+            for y in v.fields.get("args", []) or []:
+                self.scan(y)
+        elif isinstance(v, (tuple, list)):
+            for y in v:
+                self.scan(y)
+
+
+def _numerator_cells(v, reg: Terms, in_den=False, out=None):
+    out = out if out is not None else set()
+    if isinstance(v, Lin):
+        for k in v.terms:
+            if k in ("p0", "p1", "p2", "p3"):
+                if not in_den:
+                    out.add(k)
+            elif k in reg.by_name:
+                _numerator_cells(reg.by_name[k], reg, in_den, out)
+    elif isinstance(v, Sym):
+        if v.name in ("p0", "p1", "p2", "p3"):
+            if not in_den:
+                out.add(v.name)
+        elif _op(v) in ("Div", "FloorDiv"):
+            _numerator_cells(v.fields["a"], reg, in_den, out)
+            _numerator_cells(v.fields["b"], reg, True, out)
+        else:
+            for y in v.fields.get("args", []) or []:
+                _numerator_cells(y, reg, in_den, out)
+    return out
+
+
+class _Reg(Terms):
+    pass
+
+
+def _registry(it_vals):
+    reg = Terms()
+    reg.by_name.update(getattr(qpp_eval, "terms", {}))
+
+    def deep(v):
+        if isinstance(v, Sym):
+            reg.by_name[v.name] = v
+            for y in v.fields.get("args", []) or []:
+                deep(y)
+        elif isinstance(v, (tuple, list)):
+            for y in v:
+                deep(y)
+    deep(it_vals)
+    return reg
 
 
 def rule_R1(ctx, prj):
-    ctx.rule("R1", "the displayed percentages (easy+verbose, hard-to-maintain, unmaintainable) sum to 100 identically: easy "
-                   "is defined as the linear expression 100 - unmaintainable - hard_to_maintain - verbose of the three "
-                   "rounded terms, and each display site shows exactly that triple", floor=4)
-    fi = prj.func(QPP)
-    rets = [r for r in fi.walk() if isinstance(r, ast.Return) and isinstance(r.value, ast.Tuple)]
-    if not rets or len(rets[0].value.elts) != 4 or not all(isinstance(x, ast.Name) for x in rets[0].value.elts):
-        raise AnalysisError("quality_profile_percentage does not return a 4-tuple of local names")
-    names = [x.id for x in rets[0].value.elts]     # easy, verbose, hard, unm
-    easy, rest = names[0], names[1:]
-    defs = [v for v, _ in local_defs(fi, easy) if v is not None]
-    if len(defs) != 1:
-        raise AnalysisError("quality_profile_percentage: `easy` does not have a single definition")
-    lin = linear(defs[0], set(rest))
-    want = {"1": 100, **{r: -1 for r in rest}}
-    if lin == want:
-        ctx.ok("R1", fi.site(defs[0]), f"{easy} = 100 - {' - '.join(rest)}: the four values sum to 100 identically")
-    elif lin is None:
-        ctx.viol("R1", "quality_profile_percentage/easy", fi.site(defs[0]),
-                 f"{easy} = {unparse(defs[0])} is not the linear remainder 100 - {' - '.join(rest)}: when the three rounded-up "
-                 f"percentages exceed 100 (e.g. lengths 16, 31, 61) the displayed percentages no longer sum to 100")
+    ctx.rule("R1", "the displayed percentages (easy+verbose, hard-to-maintain, unmaintainable) sum to 100 identically: the "
+                   "four values of quality_profile_percentage, evaluated symbolically with the roundings as uninterpreted "
+                   "terms, add up to the constant 100; each rounded term is computed from its own profile cell; each display "
+                   "site shows exactly easy+verbose, hard-to-maintain, unmaintainable", floor=4)
+    vals, fi = qpp_eval(prj)
+    tot = Lin({}, 0)
+    try:
+        for x in vals:
+            tot = tot.add(Lin.of(x))
+    except Unknown:
+        raise AnalysisError(f"{fi.disp}: values {vals!r} are not numbers")
+    if not tot.terms and tot.const == 100:
+        ctx.ok("R1", fi.site(), "easy + verbose + hard_to_maintain + unmaintainable = 100 identically (sum of the four symbolic values)")
     else:
-        ctx.viol("R1", "quality_profile_percentage/easy", fi.site(defs[0]), f"{easy} = {unparse(defs[0])} has linear form {lin}; required {want}")
-    # the other three are rounded shares of their own profile cell
-    cell = {rest[0]: 1, rest[1]: 2, rest[2]: 3}
-    for nm, idx in cell.items():
-        ds = [v for v, _ in local_defs(fi, nm) if v is not None]
-        t = unparse(ds[0]) if ds else ""
-        subs = [s for s in ast.walk(ds[0]) if isinstance(s, ast.Subscript)] if ds else []
-        idxs = {const_int(s.slice) for s in subs}
-        if idxs == {idx}:
-            ctx.ok("R1", fi.site(ds[0]), f"{nm} is computed from profile[{idx}]")
+        ctx.viol("R1", "quality_profile_percentage/easy", fi.site(),
+                 f"the four percentages add up to `{tot}`, not to the constant 100: the first value is not the remainder 100 - (the three rounded terms), "
+                 f"so the displayed percentages do not sum to 100 (e.g. when the rounded-up terms exceed 100 for lengths 16, 31, 61)")
+    reg = _registry(list(vals))
+    # Lin values refer to opaque terms by name only: collect them from all results first
+    for nm, idx in (("verbose", 1), ("hard_to_maintain", 2), ("unmaintainable", 3)):
+        cells = sorted(_numerator_cells(vals[idx], reg))
+        if cells == [f"p{idx}"]:
+            ctx.ok("R1", fi.site(), f"{nm} is computed from profile[{idx}]")
         else:
-            ctx.viol("R1", f"quality_profile_percentage/{nm}", fi.site(ds[0]) if ds else fi.site(), f"{nm} is computed from profile cells {sorted(x for x in idxs if x is not None)}; required [{idx}]")
+            ctx.viol("R1", f"quality_profile_percentage/{nm}", fi.site(), f"{nm} is computed from profile cells {[int(c[1]) for c in cells]}; required [{idx}]")
     # display sites
-    sites = [("codelimit.common.SummaryTable:SummaryTable.__init__", 3), ("codelimit.common.report.format_markdown:print_summary", 3)]
-    for q, n in sites:
+    import re
+    sample = (37, 11, 23, 29)
+    for q, args_of in (("codelimit.common.SummaryTable:SummaryTable.__init__", None), ("codelimit.common.report.format_markdown:print_summary", None)):
         f = prj.func(q)
-        tup = None
-        for node in f.walk():
-            if isinstance(node, ast.Assign) and isinstance(node.targets[0], ast.Tuple) and "quality_profile_percentage" in unparse(node.value):
-                tup = [x.id for x in node.targets[0].elts]
-        if tup is None or len(tup) != 4:
-            raise AnalysisError(f"{f.disp}: unpacking of quality_profile_percentage() not found")
-        shown = []
-        for node in f.walk():
-            if isinstance(node, ast.JoinedStr):
-                vals = node.values
-                for i, v in enumerate(vals):
-                    if isinstance(v, ast.FormattedValue) and i + 1 < len(vals) and isinstance(vals[i + 1], ast.Constant) and str(vals[i + 1].value).startswith("%"):
-                        shown.append(v.value)
-        # the table line(s): take the first three percentage placeholders (the verdict messages repeat one of them)
+        texts = _render_summary(prj, f, sample)
+        shown = [int(x) for t in texts for x in re.findall(r"(\d+)\s*%", t)]
         first3 = shown[:3]
-        total = {}
-        ok = len(first3) == 3
-        for e in first3:
-            l = linear(e, set(tup))
-            if l is None:
-                ok = False
-                break
-            for k, v in l.items():
-                total[k] = total.get(k, 0) + v
-        if ok and total == {t: 1 for t in tup}:
-            ctx.ok("R1", f.site(), f"{f.local}: shows {[unparse(e) for e in first3]} (each of the four values exactly once)")
+        want = [sample[0] + sample[1], sample[2], sample[3]]
+        if first3 == want:
+            ctx.ok("R1", f.site(), f"{f.local}: shows easy+verbose, hard-to-maintain, unmaintainable (evaluated with {sample}: {first3})")
+        elif sorted(first3) == sorted(want):
+            ctx.viol("R1", f"{f.local}/displayed-triple", f.site(), f"for (easy, verbose, hard, unmaintainable) = {sample} the columns show {first3}; required {want} in this order")
         else:
-            ctx.viol("R1", f"{f.local}/displayed-triple", f.site(), f"the percentages shown are {[unparse(e) for e in first3]}: they do not cover easy, verbose, hard-to-maintain and unmaintainable exactly once (sum is not 100)")
+            ctx.viol("R1", f"{f.local}/displayed-triple", f.site(), f"for (easy, verbose, hard, unmaintainable) = {sample} the percentages shown are {first3}: they do not cover easy, verbose, hard-to-maintain and unmaintainable exactly once (sum is not 100)")
+
+
+def _render_summary(prj, f, sample):
+    """texts printed / built by a summary renderer when quality_profile_percentage() returns `sample`"""
+    run = Run()
+    base = _hook(run)
+
+    def hook(it, kind, fn, args, kwargs, node, cur):
+        if kind == "call" and isinstance(fn, BoundFunc) and fn.fi.name == "quality_profile_percentage":
+            return tuple(sample)
+        if kind == "call" and isinstance(fn, tuple) and fn and fn[0] == "method" and fn[2] == "quality_profile_percentage":
+            return tuple(sample)
+        return base(it, kind, fn, args, kwargs, node, cur)
+    it = MiniInterp(prj, hook)
+    rep = Sym("report", _cls=prj.cls("codelimit.common.report.Report:Report"))
+    params = f.params()
+    self_obj = None
+    if f.is_method() and not f.is_static():
+        self_obj = Sym("self", _cls=f.cls)
+        params = params[1:]
+    args = []
+    for p in params:
+        ann = f.param_annotation(p)
+        at = unparse(ann) if ann is not None else ""
+        if "Report" in at or p == "report":
+            args.append(rep)
+        elif f.param_default(p) is not None:
+            break
+        else:
+            args.append(Sym(p, _open=True))
+    try:
+        it.call(f, args, {}, self_obj=self_obj)
+    except (Unknown, PyRaise) as e:
+        raise AnalysisError(f"{f.disp}: cannot evaluate the renderer ({e})")
+    out = []
+    for name, aa, kw in run.effects:
+        out += [x for x in deep_strs(list(aa)) if isinstance(x, str)]
+    return out
 
 
 def rule_R2(ctx, prj):
     ctx.rule("R2", "both print_summary functions choose the verdict by the same table: unmaintainable >= 1 -> refactoring "
                    "necessary (shows the unmaintainable percentage); else hard_to_maintain >= 21 -> refactoring necessary "
-                   "(shows the hard-to-maintain percentage); else no refactoring necessary (shows easy + verbose) - folded "
+                   "(shows the hard-to-maintain percentage); else no refactoring necessary (shows easy + verbose) - evaluated "
                    "for 8 (unmaintainable, hard_to_maintain) pairs around the boundaries", floor=8)
+    import re
     samples = [(0, 0), (0, 19), (0, 20), (0, 21), (0, 57), (1, 0), (1, 21), (3, 57)]
     tables = {}
     for q in ("codelimit.common.report.format_text:print_summary", "codelimit.common.report.format_markdown:print_summary"):
         f = prj.func(q)
-        tup = None
-        for node in f.walk():
-            if isinstance(node, ast.Assign) and isinstance(node.targets[0], ast.Tuple) and "quality_profile_percentage" in unparse(node.value):
-                tup = [x.id for x in node.targets[0].elts]
-        if tup is None:
-            raise AnalysisError(f"{f.disp}: unpacking of quality_profile_percentage() not found")
-        hard_n, unm_n = tup[2], tup[3]
         table = {}
         bad = None
         for unm, hard in samples:
-            def val(n, unm=unm, hard=hard):
-                if isinstance(n, ast.Name) and isinstance(n.ctx, ast.Load):
-                    if n.id == unm_n:
-                        return unm
-                    if n.id == hard_n:
-                        return hard
-                return None
-            sp = Specializer(None, valuation=val)
-            tree = sp.visit(copy.deepcopy(f.node))
-            # the verdict message: the last print whose text mentions 'refactoring'
+            verbose = 5
+            easy = 100 - verbose - unm - hard
+            texts = _render_summary(prj, f, (easy, verbose, hard, unm))
+            verdicts = [t for t in texts if "refactoring" in t.lower()]
             label = None
-            for st in tree.body:
-                for c in ast.walk(st):
-                    if isinstance(c, ast.Call) and isinstance(c.func, ast.Attribute) and c.func.attr == "print" and c.args and "refactoring" in unparse(c.args[0]):
-                        if isinstance(st, ast.If):
-                            raise AnalysisError(f"{f.disp}: the verdict depends on something besides the two percentages: {unparse(st.test)[:60]}")
-                        txt = unparse(c.args[0])
-                        necessary = "no refactoring" not in txt
-                        fv = [x for x in ast.walk(c.args[0]) if isinstance(x, ast.FormattedValue)]
-                        shown = None
-                        if fv:
-                            v = fv[0].value
-                            if isinstance(v, ast.Constant):
-                                shown = "unmaintainable" if (v.value == unm and unm != hard) else "hard_to_maintain" if v.value == hard and unm != hard else "?"
-                            else:
-                                shown = unparse(v)
-                        label = (necessary, shown)
-            want = (True, "unmaintainable") if unm >= 1 else (True, "hard_to_maintain") if hard >= 21 else (False, f"{tup[0]} + {tup[1]}")
+            if verdicts:
+                t = verdicts[-1]
+                necessary = "no refactoring" not in t.lower()
+                nums = [int(x) for x in re.findall(r"(\d+)\s*%", t)]
+                shown = nums[0] if nums else None
+                label = (necessary, shown)
+            want = (True, unm) if unm >= 1 else (True, hard) if hard >= 21 else (False, easy + verbose)
+            names = {unm: "unmaintainable", hard: "hard_to_maintain", easy + verbose: "easy + verbose"}
             table[(unm, hard)] = label
             ctx.obligations += 1
-            if label is None or label[0] != want[0] or label[1] not in (want[1], "?"):
+            if label is None or label[0] != want[0] or label[1] != want[1]:
                 ctx.bad_instance("R2", f.site(), f"unm={unm} hard={hard} -> {label}")
             if label is None:
-                bad = bad or ((unm, hard), "no verdict is printed", want)
+                bad = bad or ((unm, hard), "no verdict is printed", want, names)
             elif label[0] != want[0]:
-                bad = bad or ((unm, hard), f"declares refactoring {'necessary' if label[0] else 'not necessary'}", want)
-            elif label[1] not in (want[1], "?"):
-                bad = bad or ((unm, hard), f"the message shows the percentage `{label[1]}`", want)
+                bad = bad or ((unm, hard), f"declares refactoring {'necessary' if label[0] else 'not necessary'}", want, names)
+            elif label[1] != want[1]:
+                bad = bad or ((unm, hard), f"the message shows {label[1]} % ({names.get(label[1], 'another number')})", want, names)
             else:
                 ctx.discharged += 1
                 ctx.instances.setdefault("R2", []).append(dict(site=f.site(), what=f"{f.module.name.split('.')[-1]}.print_summary unm={unm} hard={hard} -> {label}", verdict="ok"))
         tables[q] = table
         key = f"{f.module.name.split('.')[-1]}.print_summary"
         if bad:
-            (unm, hard), got, want = bad
+            (unm, hard), got, want, names = bad
             ctx.viol("R2", key, f.site(), f"with unmaintainable={unm} %, hard-to-maintain={hard} %: {got}; required "
-                     f"{'refactoring necessary' if want[0] else 'no refactoring necessary'} showing {want[1]} "
+                     f"{'refactoring necessary' if want[0] else 'no refactoring necessary'} showing {names[want[1]]} "
                      f"(necessary exactly when unmaintainable > 0 or hard-to-maintain > 20)")
         else:
             ctx.lines.append(f"OK rule=R2 site={f.site()} construct={key} rows={len(samples)}")
@@ -178,110 +296,119 @@ def rule_R2(ctx, prj):
 
 
 def rule_R3(ctx, prj):
-    ctx.rule("R3", "every division by the profile total is dominated by `total > 0` (the all-zero profile shows 0 %)", floor=6)
-    for q in (QPP, "codelimit.common.utils:render_quality_profile"):
-        f = prj.func(q)
-        n = 0
-        for d in f.walk():
-            if isinstance(d, ast.BinOp) and isinstance(d.op, (ast.Div, ast.FloorDiv, ast.Mod)):
-                den = term(f, d.right)
-                if "sum(" not in den and "total" not in unparse(d.right):
-                    continue
-                n += 1
-                ok = False
-                for g in guards_of(f, d):
-                    t = g.test
-                    if isinstance(t, ast.Compare) and len(t.ops) == 1 and unparse(t.left) == unparse(d.right):
-                        c = const_int(t.comparators[0])
-                        op = type(t.ops[0])
-                        if g.polarity and ((op is ast.Gt and c == 0) or (op is ast.GtE and c == 1) or (op is ast.NotEq and c == 0)):
-                            ok = True
-                        if not g.polarity and ((op is ast.Eq and c == 0) or (op is ast.LtE and c == 0) or (op is ast.Lt and c == 1)):
-                            ok = True
-                    if unparse(t) == unparse(d.right) and g.polarity:
-                        ok = True
-                if ok:
-                    ctx.ok("R3", f.site(d), f"{f.local}: {unparse(d)[:40]} guarded by {unparse(d.right)} > 0")
-                else:
-                    ctx.viol("R3", f"{f.local}/division-{n}", f.site(d), f"{unparse(d)[:50]} divides by the profile total without a dominating `> 0` test: ZeroDivisionError for a codebase without functions")
-        if n == 0:
-            raise AnalysisError(f"{f.disp}: no division by the profile total found")
+    ctx.rule("R3", "the all-zero profile is handled: quality_profile_percentage and render_quality_profile evaluated on the "
+                   "profile [0, 0, 0, 0] do not divide by the (zero) total and show 0 % for the three rounded categories", floor=2)
+    try:
+        vals, fi = qpp_eval(prj, profile=[0, 0, 0, 0])
+    except PyRaise as e:
+        fi = prj.func(QPP)
+        ctx.viol("R3", "quality_profile_percentage/division-1", fi.site(e.node) if e.node is not None else fi.site(),
+                 f"for a codebase without functions (profile [0, 0, 0, 0]) quality_profile_percentage raises {e.name}: a division by the profile total is not guarded by `total > 0`")
+    else:
+        if tuple(vals[1:]) == (0, 0, 0):
+            ctx.ok("R3", fi.site(), f"quality_profile_percentage([0,0,0,0]) = {tuple(vals)}: no division by the zero total")
+        else:
+            ctx.viol("R3", "quality_profile_percentage/zero-profile", fi.site(), f"for the all-zero profile the percentages are {tuple(vals)}; required 0 % for verbose, hard-to-maintain and unmaintainable")
+    rq = prj.func("codelimit.common.utils:render_quality_profile")
+    try:
+        run = run_site(prj, rq, [[0, 0, 0, 0]])
+    except Unknown as e:
+        raise AnalysisError(f"{rq.disp}: cannot evaluate on the zero profile ({e})")
+    if run.raised is not None:
+        ctx.viol("R3", "render_quality_profile/division-1", rq.site(run.raised.node) if run.raised.node is not None else rq.site(),
+                 f"render_quality_profile([0, 0, 0, 0]) raises {run.raised.name}: a division by the profile total is not guarded by `total > 0`")
+    else:
+        ctx.ok("R3", rq.site(), "render_quality_profile([0,0,0,0]): no division by the zero total")
+
+
+def _strip_clamp(v):
+    while isinstance(v, Sym) and _op(v) in ("min", "max"):
+        inner = [x for x in v.fields.get("args", []) if isinstance(x, (Sym, Lin))]
+        if len(inner) != 1:
+            break
+        v = inner[0]
+    return v
 
 
 def rule_R4(ctx, prj):
-    ctx.rule("R4", "a hard-to-maintain / unmaintainable category above 0.001 % never shows as 0 %: each of the three rounded "
+    ctx.rule("R4", "a hard-to-maintain / unmaintainable category above 0.001 % never shows as 0 %: each of the two rounded "
                    "terms has the form ceil(S - c) with S the category's share in percent and a constant 0 <= c <= 0.001 "
                    "(then the result is >= 1 exactly when S > c); forms that are known to map small positive shares to 0 "
                    "(round, int, floor, ceil(round(S, n)) with n < 3) are violations", floor=2)
-    fi = prj.func(QPP)
-    rets = [r for r in fi.walk() if isinstance(r, ast.Return) and isinstance(r.value, ast.Tuple)]
-    names = [x.id for x in rets[0].value.elts][2:]      # hard-to-maintain, unmaintainable (the property's two categories)
-    for nm in names:
-        ds = [v for v, _ in local_defs(fi, nm) if v is not None]
-        if not ds:
-            raise AnalysisError(f"quality_profile_percentage: {nm} undefined")
-        e = ds[0]
-        if isinstance(e, ast.IfExp):       # ... if total > 0 else 0
-            e = e.body
+    vals, fi = qpp_eval(prj)
+    reg = _registry(list(vals))
+    for nm, idx in (("hard_to_maintain", 2), ("unmaintainable", 3)):
+        v = vals[idx]
+        if isinstance(v, Lin) and len(v.terms) == 1 and v.const == 0 and list(v.terms.values()) == [1]:
+            v = reg.by_name.get(next(iter(v.terms)), v)
+        v = _strip_clamp(v)
         key = f"quality_profile_percentage/{nm}/rounding"
-        fn = attr_chain(e.func) if isinstance(e, ast.Call) else None
-        if fn in ("ceil", "math.ceil") and len(e.args) == 1:
-            a = e.args[0]
-            if isinstance(a, ast.Call) and attr_chain(a.func) == "round":
-                nd = const_int(a.args[1]) if len(a.args) > 1 else 0
-                if nd is not None and nd >= 3:
-                    ctx.ok("R4", fi.site(e), f"{nm} = ceil(round(S, {nd})): shares above 0.0005 % survive the inner rounding")
+        op = _op(v)
+        if op == "ceil":
+            a = v.fields["a"]
+            if isinstance(a, Sym) and _op(a) == "round":
+                nd = a.fields.get("b")
+                nd = 0 if nd is None else nd
+                if isinstance(nd, int) and nd >= 3:
+                    ctx.ok("R4", fi.site(), f"{nm} = ceil(round(S, {nd})): shares above 0.0005 % survive the inner rounding")
                 else:
-                    ctx.viol("R4", key, fi.site(e), f"{nm} = {unparse(e)[:70]}: the inner round(…, {nd}) turns every share below {0.5 * 10 ** -(nd or 0):g} % into 0 "
+                    ctx.viol("R4", key, fi.site(), f"{nm} = {v.name[:70]}: the inner round(…, {nd}) turns every share below {0.5 * 10 ** -(nd or 0):g} % into 0 "
                              f"before ceil is applied, so a category holding e.g. 0.004 % of the code shows as 0 % (and the verdict ignores it)")
                 continue
-            c = 0.0
-            if isinstance(a, ast.BinOp) and isinstance(a.op, ast.Sub) and isinstance(a.right, ast.Constant) and isinstance(a.right.value, (int, float)):
-                c = float(a.right.value)
-                a = a.left
-            div = [x for x in ast.walk(a) if isinstance(x, ast.BinOp) and isinstance(x.op, ast.Div)]
-            hundred = any(const_int(x) == 100 for x in ast.walk(a))
-            if div and hundred and 0.0 <= c <= 0.001:
-                ctx.ok("R4", fi.site(e), f"{nm} = ceil(S - {c:g}) with S = share * 100")
-            elif div and hundred:
-                ctx.viol("R4", key, fi.site(e), f"{nm} = {unparse(e)[:70]} subtracts {c:g} before rounding up: shares up to {c:g} % show as 0 % (allowed at most 0.001)")
+            sh = _share_of(a)
+            if sh is None:
+                raise AnalysisError(f"{fi.disp}: percentage term {v.name[:80]} is not of a recognised form")
+            tname, k, c = sh
+            t = reg.by_name.get(tname)
+            scale = None
+            if t is not None and _op(t) == "Div":
+                try:
+                    num = Lin.of(t.fields["a"])
+                    if len(num.terms) == 1 and next(iter(num.terms)) in ("p0", "p1", "p2", "p3") and num.const == 0:
+                        scale = k * next(iter(num.terms.values()))     # which cell it is: R1
+                except Unknown:
+                    pass
+            if scale == 100 and -0.001 - 1e-12 <= c <= 0:
+                ctx.ok("R4", fi.site(), f"{nm} = ceil(S - {-c:g}) with S = share * 100")
+            elif scale == 100 and c < 0:
+                ctx.viol("R4", key, fi.site(), f"{nm} = {v.name[:70]} subtracts {-c:g} before rounding up: shares up to {-c:g} % show as 0 % (allowed at most 0.001)")
             else:
-                raise AnalysisError(f"{fi.site(e)}: percentage term {unparse(e)[:80]} is not of a recognised form")
-        elif fn in ("round", "int", "floor", "math.floor", "trunc", "math.trunc"):
-            ctx.viol("R4", key, fi.site(e), f"{nm} = {unparse(e)[:70]} rounds small positive shares down to 0: a category above 0.001 % can show as 0 %")
+                raise AnalysisError(f"{fi.disp}: percentage term {v.name[:80]} is not of a recognised form (scale {scale}, offset {c})")
+        elif op in ("round", "int", "floor", "trunc", "FloorDiv"):
+            ctx.viol("R4", key, fi.site(), f"{nm} = {v.name[:70]} rounds small positive shares down to 0: a category above 0.001 % can show as 0 %")
         else:
-            raise AnalysisError(f"{fi.site(e)}: percentage term {unparse(e)[:80]} is not of a recognised form")
+            raise AnalysisError(f"{fi.disp}: percentage term {getattr(v, 'name', v)!r:.80} is not of a recognised form")
 
 
 def rule_R5(ctx, prj):
     ctx.rule("R5", "range: the remainder 100 - a - b - c stays >= 0 only if the subtracted terms cannot overshoot 100 "
                    "together, i.e. if they are rounded down (or by a sum-preserving scheme); terms that are each rounded up "
                    "or to nearest independently can exceed 100 in sum and drive the shown easy/verbose percentage negative", floor=1)
-    fi = prj.func(QPP)
-    rets = [r for r in fi.walk() if isinstance(r, ast.Return) and isinstance(r.value, ast.Tuple)]
-    names = [x.id for x in rets[0].value.elts]
+    vals, fi = qpp_eval(prj)
+    reg = _registry(list(vals))
     kinds = []
-    for nm in names[1:]:
-        ds = [v for v, _ in local_defs(fi, nm) if v is not None]
-        e = ds[0].body if ds and isinstance(ds[0], ast.IfExp) else ds[0] if ds else None
-        fn = attr_chain(e.func) if isinstance(e, ast.Call) else None
-        if isinstance(e, ast.Call) and fn in ("min", "max"):
+    for nm, idx in (("verbose", 1), ("hard_to_maintain", 2), ("unmaintainable", 3)):
+        v = vals[idx]
+        if isinstance(v, Lin) and len(v.terms) == 1 and v.const == 0:
+            v = reg.by_name.get(next(iter(v.terms)), v)
+        op = _op(v)
+        if op in ("min", "max"):
             kinds.append("clamped")
-        elif fn in ("ceil", "math.ceil"):
+        elif op == "ceil":
             kinds.append("up")
-        elif fn == "round":
+        elif op == "round":
             kinds.append("nearest")
-        elif fn in ("int", "floor", "math.floor", "trunc", "math.trunc") or (isinstance(e, ast.BinOp) and isinstance(e.op, ast.FloorDiv)):
+        elif op in ("int", "floor", "trunc", "FloorDiv"):
             kinds.append("down")
         else:
-            raise AnalysisError(f"{fi.site()}: rounding of {nm} not recognised: {unparse(e)[:60] if e is not None else '?'}")
-    easy_def = [v for v, _ in local_defs(fi, names[0]) if v is not None][0]
-    clamped = isinstance(easy_def, ast.Call) and attr_chain(easy_def.func) in ("max",)
+            raise AnalysisError(f"{fi.disp}: rounding of {nm} not recognised: {getattr(v, 'name', v)!r:.60}")
+    easy = vals[0]
+    clamped = isinstance(easy, Sym) and _op(easy) == "max"
     if all(k == "down" for k in kinds) or clamped or "clamped" in kinds:
-        ctx.ok("R5", fi.site(easy_def), f"remainder of terms rounded {kinds}: cannot become negative")
+        ctx.ok("R5", fi.site(), f"remainder of terms rounded {kinds}: cannot become negative")
     else:
-        ctx.viol("R5", "quality_profile_percentage/remainder-of-independently-rounded-terms/" + "-".join(kinds), fi.site(easy_def),
-                 f"{names[0]} = {unparse(easy_def)} subtracts three terms that are each rounded {set(kinds)} independently: their sum can reach 101 or 102, "
+        ctx.viol("R5", "quality_profile_percentage/remainder-of-independently-rounded-terms/" + "-".join(kinds), fi.site(),
+                 f"the first percentage is the remainder of three terms that are each rounded {set(kinds)} independently: their sum can reach 101 or 102, "
                  f"so the shown easy/verbose percentage can be negative (function lengths 31 and 62 alone give 34 % + 67 % and -1 % easy/verbose; "
                  f"lengths 16, 31, 61 give -1 % easy)")
 
